@@ -280,8 +280,7 @@ def run(ctx):
         check_packet(ctx, rng, is_data, kind, L, budget if kind != 'rsa' else budget // 2)
     for k in ('signer-capture', 'verify-valid', 'verify-mutant', 'mutant-rejected', 'params-checker-mutant',
               'mutant-accepted-legitimately', 'verify-wrong-key'):
-        if not ctx.events.get(k):
-            ctx.inconclusive(f'monitor {k} observed nothing')
+        ctx.need_event(k)
     ctx.assumptions = ['pycryptodome is also the independent verifier (common mode)',
                        'sha256_digest_checker is judged only while the mutant still declares DIGEST_SHA256',
                        'a verifier that raises on a mutant counts as rejecting it',
